@@ -403,7 +403,7 @@ def ob_remove_pbc(tier):
                 return z3.And(*conds)
             wit = dict(bi=bi, X=[[[z3.ToReal(v) / 8 for v in a] for a in mod_] for mod_ in X] if stack else [[z3.ToReal(v) / 8 for v in a] for a in X[0]])
             cases.append(Case(f"remove_pbc_from_coord, {'stack of 2 models, model ' + str(which) if stack else 'one model'}, box {BOXES[bi]}", base, run, wit, real_remove_pbc,
-                              timeout=900, solver_ms=120000))
+                              timeout=1500, solver_ms=300000))
     return cases
 
 
